@@ -87,6 +87,11 @@ class MedianStopper(Stopper):
             return False
 
         median_objective = np.median(competing_objectives)
+        if num_competing > 0 and np.isnan(median_objective):
+            # The two middle values are -inf and +inf (e.g., diverged evaluations):
+            # their mean is undefined and nothing compares with it. Use the lower
+            # one so that only evaluations below both middle values are stopped.
+            median_objective = competing_objectives[(num_competing - 1) // 2]
 
         promotable = self._objective + self.epsilon >= median_objective
         if promotable:
